@@ -23,6 +23,8 @@ From Borno Require Import EvalOrder.
 From Borno Require Import InvFacts.
 From Borno Require Import RenameDefs.
 From Borno Require Import Rename.
+From Borno Require Import LayoutParse.
+From Borno Require Import LayoutRun.
 
 (** (a) inserting a blank, tab, carriage return or newline between any two items leaves the token list unchanged up to line numbers *)
 Theorem C18_layout_invariance :
@@ -290,3 +292,52 @@ Theorem C18_function_names_are_observable :
          observables (run_stmts libm_d f_zero sched_d 20 false demo (init_state [])).
 Proof. exact (@function_names_are_observable). Qed.
 Print Assumptions C18_function_names_are_observable.
+
+(** (a) END TO END: two texts whose tokens agree up to line numbers, both accepted, run alike - same ending, same error kind, same output and input consumption, same final store up to line fields; only the reported line may differ *)
+Theorem C18_layout_run_invariant :
+  forall (libm : N -> f64 -> f64 -> f64) (clock : f64)
+           (sched : N -> list (list N * value) -> list (list N * value)) (fuel : nat) 
+           (rp : bool) (a b stdin : list N),
+         Forall2 same_upto_line (lx_tokens (lex a)) (lx_tokens (lex b)) ->
+         lx_diags (lex a) = [] ->
+         lx_diags (lex b) = [] ->
+         pr_diags (parse (lx_tokens (lex a)) (lx_eof_line (lex a))) = [] ->
+         pr_diags (parse (lx_tokens (lex b)) (lx_eof_line (lex b))) = [] ->
+         run_same_but_lines (run_source libm clock sched fuel rp a stdin)
+           (run_source libm clock sched fuel rp b stdin).
+Proof. exact (@layout_run_invariant). Qed.
+Print Assumptions C18_layout_run_invariant.
+
+(** ...in particular inserting one blank, tab, carriage return or newline at any item boundary *)
+Theorem C18_layout_insert_ws_run :
+  forall (libm : N -> f64 -> f64 -> f64) (clock : f64)
+           (sched : N -> list (list N * value) -> list (list N * value)) (fuel : nat) 
+           (rp : bool) (pre post : list N) (ia ib : list item) (w : N) (stdin : list N),
+         is_ws w ->
+         fst (lex_items (pre ++ post)) = ia ++ ib ->
+         concat (map itext ia) = pre ->
+         lx_diags (lex (pre ++ post)) = [] ->
+         pr_diags (parse (lx_tokens (lex (pre ++ [w] ++ post))) (lx_eof_line (lex (pre ++ [w] ++ post)))) = [] ->
+         pr_diags (parse (lx_tokens (lex (pre ++ post))) (lx_eof_line (lex (pre ++ post)))) = [] ->
+         run_same_but_lines (run_source libm clock sched fuel rp (pre ++ [w] ++ post) stdin)
+           (run_source libm clock sched fuel rp (pre ++ post) stdin).
+Proof. exact (@layout_insert_ws_run). Qed.
+Print Assumptions C18_layout_insert_ws_run.
+
+(** the parser looks at line numbers only to REJECT (a line break inside a declaration): two accepted layouts of the same tokens get the same tree up to line fields *)
+Theorem C18_accepted_trees_agree_upto_lines :
+  forall (eofl eofl' : N) (f f' : nat) (ts ts' : list token) (ss ss' : list stmt),
+         Forall2 same_upto_line ts ts' ->
+         pprogram eofl f ts = POk ss [] [] ->
+         pprogram eofl' f' ts' = POk ss' [] [] -> map erase_s ss = map erase_s ss'.
+Proof. exact (@accepted_trees_agree_upto_lines). Qed.
+Print Assumptions C18_accepted_trees_agree_upto_lines.
+
+(** an accepted layout stays accepted when everything is put on one line *)
+Theorem C18_parse_flat_accepts :
+  forall (ts : list token) (eofl : N) (p : list stmt),
+         pr_diags (parse ts eofl) = [] ->
+         pr_prog (parse ts eofl) = Some p ->
+         pr_diags (parse (flat ts) 0) = [] /\ pr_prog (parse (flat ts) 0) = Some (map erase_s p).
+Proof. exact (@parse_flat_accepts). Qed.
+Print Assumptions C18_parse_flat_accepts.
